@@ -41,7 +41,7 @@ RULE = ("scenario = seeded initial termios attributes (canonical/raw, echo, ISIG
         "differed from the entry attributes; distinct = hash of (scenario, fault)")
 PROBES = ["fault_while_attrs_modified", "fault_in_nested_read", "predicate_raised",
           "timeout_path", "blocking_read_min", "infinite_timeout_read", "draw_animated_echo_off",
-          "canonical_entry", "raw_entry", "echo_read"]
+          "canonical_entry", "raw_entry", "echo_read", "read_nested_inside_read"]
 COMPONENTS = {
     "real": ["term_image.utils.query_terminal/read_tty/read_tty_all/write_tty/get_cell_size/"
              "get_fg_bg_colors/get_terminal_name_version", "Renderable.draw/_animate_/"
@@ -177,6 +177,17 @@ def run(ch, ctx, fault=None):
                     k.after(d, (lambda dd: lambda: tty.input_arrives(dd))(data), "input")
                 stop_at = total if (tmo is not None and tmo < 0) else ch.int("stop", 1, 8)
                 more = predicate(lambda s, n=stop_at: len(s) < n)
+                if tmo is not None and tmo >= 0 and mn == 0 and ch.bool("reentrant", 0.25):
+                    # the caller's predicate talks to the terminal itself (the lock is
+                    # re-entrant): a direct read nested inside a direct read
+                    nested = [False]
+
+                    def more(s, n=stop_at, inner=more):
+                        if not nested[0]:
+                            nested[0] = True
+                            ctx.probe("read_nested_inside_read")
+                            utils.read_tty_all()
+                        return inner(s)
                 if echo:
                     ctx.probe("echo_read")
                 desc = "read_tty(more=len<%d, timeout=%s, min=%d, echo=%s) with %d bytes arriving" \
